@@ -84,3 +84,58 @@ extern "C" void h_time_rotation()
   }
   VWITNESS(g_rot >= 1);
 }
+
+// ---- C14 (rotation decision and size accounting only): the REAL RotatingSink<FileSink>::write_log with _time_rotation /
+// _size_rotation; _rotate_files (renames, backup limit, file system) and the base write are hooks.  The _rotate_files hook
+// behaves like the real one at its two exits: it either refuses (backup limit without overwrite / empty file) and changes
+// nothing, or opens a fresh file (size 0).
+static bool g_rot_refuse; static uint32_t g_writes; static uint64_t g_wsize[8]; static uint64_t g_file_at_write[8];
+extern "C" void vh_rotate_files14(RS* s, uint64_t ts)
+{
+  if (g_rot < 8) g_rot_ts[g_rot] = ts; g_rot++;
+  g_rot_refuse = vnd_bool();
+  if (!g_rot_refuse) s->_file_size = 0;
+}
+extern "C" void vh_base_write(StreamSink* self, MacroMetadata const*, uint64_t, std::string_view, std::string_view, std::string const&, std::string_view,
+                              LogLevel, std::string_view, std::string_view, std::vector<std::pair<std::string, std::string>> const*, std::string_view,
+                              std::string_view stmt)
+{
+  if (g_writes < 8) { g_wsize[g_writes] = stmt.size(); g_file_at_write[g_writes] = static_cast<RS*>(static_cast<FileSink*>(self))->_file_size; }
+  g_writes++;
+}
+extern "C" void h_size_rotation()
+{
+  RS* s = &g_rs.s;
+  RotatingFileSinkConfig* cfg = &s->_config;
+  uint64_t maxsz = vnd_range(512, 4096);
+  cfg->_rotation_max_file_size = maxsz;
+  bool timed = vnd_bool();
+  cfg->_rotation_frequency = timed ? RotatingFileSinkConfig::RotationFrequency::Hourly : RotatingFileSinkConfig::RotationFrequency::Disabled;
+  cfg->_rotation_interval = 1;
+  s->_is_null = false;
+  uint64_t next = vnd_range(1, 1ull << 40); s->_next_rotation_time = next;
+  uint64_t fsz = vnd_range(0, 4096); s->_file_size = fsz;        // what the open file already holds
+  VASSUME(fsz <= maxsz);
+  uint64_t ghost = fsz; uint64_t ts = 0; std::string pid{"1"};
+  char buf[1] = {'x'};
+  for (uint32_t i = 0; i < NSTMT; i++)
+  {
+    uint64_t n = vnd_range(1, 8192);                                // statement size, possibly larger than the limit
+    ts += vnd_range(0, 1ull << 39);
+    uint32_t rot_before = g_rot, w_before = g_writes;
+    bool time_due = timed && ts >= s->_next_rotation_time;
+    bool size_due = !time_due && ghost + n > maxsz;
+    s->RS::write_log(nullptr, ts, "1", "t", pid, "l", LogLevel::Info, "I", "I", nullptr, "m", std::string_view{buf, n});
+    // every statement is written whole, exactly once, after at most one rotation request
+    VASSERT(g_writes == w_before + 1 && g_wsize[w_before] == n);
+    VASSERT(g_rot - rot_before == ((time_due || size_due) ? 1u : 0u));        // rotation requested exactly when due
+    bool rotated = (time_due || size_due) && !g_rot_refuse;
+    if (rotated) ghost = 0;
+    VASSERT(g_file_at_write[w_before] == ghost);                               // the statement goes to the file the rotation opened
+    // no file exceeds the limit unless a single statement alone does, or rotation was legitimately refused
+    if (!(time_due || size_due) || rotated) VASSERT(ghost + n <= maxsz || ghost == 0);
+    ghost += n;
+    VASSERT(s->_file_size == ghost);
+  }
+  VWITNESS(g_rot >= 2);
+}
